@@ -7,6 +7,7 @@ pub mod c03;
 pub mod c05;
 pub mod c06;
 pub mod c07;
+pub mod c11;
 pub mod c12;
 pub mod c20;
 pub mod eqfam;
@@ -27,6 +28,7 @@ pub fn run(id: &str, cfg: &Config) -> i32 {
 		"C07" => c07::run(cfg),
 		"C09" => jcsfam::run_c09(cfg),
 		"C10" => jcsfam::run_c10(cfg),
+		"C11" => c11::run(cfg),
 		"C12" => c12::run(cfg),
 		"C14" => eqfam::run_c14(cfg),
 		"C15" => eqfam::run_c15(cfg),
@@ -72,6 +74,7 @@ pub fn replay(id: &str, cfg: &Config, path: &Path) -> i32 {
 		("C06", "history") => c06::replay_case(&case),
 		("C04" | "C08" | "C13", _) => printfam::replay_case(id, &case),
 		("C09" | "C10", _) => jcsfam::replay_case(id, &case),
+		("C11", _) => c11::replay_case(&case),
 		("C14" | "C15", _) => eqfam::replay_case(id, &case),
 		("C20", _) => Some(if c20::run(cfg) == 0 { vec![] } else { vec!["C20 enumeration fails".to_string()] }),
 		_ => None,
